@@ -250,6 +250,10 @@ theorem exB_qr : QrRec (hankYs exB_Y exB_Yr 1 1) (exQ 3) exB_R where
 example : exB_R.r = 3 ∧ exB_R.c = 6 ∧ (hankDat exB_R exB_Yr.r 1).r = 2 ∧ (hankDat exB_R exB_Yr.r 1).c = 3 ∧
     (hankDat exB_R exB_Yr.r 1).e 0 0 = 1 ∧ (hankDat exB_R exB_Yr.r 1).e 1 2 = 4 := by decide +kernel
 
+/-- the fixed-width `hankDatOfR` is NOT what the code returns here (4 columns against the 3 of `hankDat` and of
+    the real function): it mirrors the code only for `r(p+1) ≤ R.r` (`hankDat_eq_hankDatOfR`) -/
+example : (hankDatOfR exB_R exB_Yr.r 1).c = 4 ∧ (hankDat exB_R exB_Yr.r 1).c = 3 := by decide
+
 /-- all hypotheses of `C12_dat_gram_model` hold jointly in the left-inverse branch (`W = Zᵀ·Z`, a
     generalised inverse of the singular `Yp·Ypᵀ`), and those of `C12_dat_gram_short` -/
 example := C12_dat_gram_model exB_Y exB_Yr 1 1 (exQ 3) exB_R exB_qr ((toMx 3 4 exB_Z)ᵀ * toMx 3 4 exB_Z)
